@@ -6,7 +6,7 @@ import Juniper.Proofs.TreeOps
 
 `goroutines puts reads`: one goroutine per `Put k_j v_j`, then the readers. `ConcHyp`: the `k_j` are
 pairwise inequivalent and present, every `Get`/`Contains` key is inequivalent to every `k_j`, every stored key
-that a range reader's in-range predicate accepts is inequivalent to every `k_j`, node objects are pairwise distinct. `setup_of_hyp` turns this
+inside both bounds of a range reader is inequivalent to every `k_j`, node objects are pairwise distinct. `setup_of_hyp` turns this
 into the `Setup` the invariant proofs use. `putAll_refines`: the sequential result in terms of the
 ideal sorted map. `hasRace_sound`: the executable race check.
 -/
@@ -47,10 +47,51 @@ structure ConcHyp (cmp : K → K → Int) (t : Tree K V) (puts : List (K × V)) 
   readers : ∀ r ∈ reads, r.isPut = false
   /-- a `Get` / `Contains` asks for a key inequivalent to every Put's key -/
   searchKeys : ∀ r ∈ reads, r.isSearch = true → ∀ p ∈ puts, cmp p.1 r.key ≠ 0
-  /-- a range reader: every key stored in the tree that its in-range predicate (the far bound; `true` for
-  `Iterate` and an unbounded far end) accepts is inequivalent to every Put's key -/
+  /-- a range reader: every key stored in the tree that lies inside both of its bounds — the far bound is the
+  iterator's in-range predicate `inRangeOf`, the near bound what its seek does not step over, `nearOp`; both are `true`
+  for an unbounded end — is inequivalent to every Put's key -/
   rangeKeys : ∀ r ∈ reads, r.isSearch = false → ∀ p ∈ puts, ∀ k' ∈ storedKeys t.root,
-    inRangeOf cmp r k' = true → cmp p.1 k' ≠ 0
+    inRangeOf cmp r k' = true → nearOp cmp r k' = true → cmp p.1 k' ≠ 0
+  /-- a range reader is one that `Range` / `RangeReverse` build (`scanOf`): it seeks in its own direction -/
+  rangeWF : ∀ r ∈ reads, r.isSearch = false → ScanWF r
+  /-- with range readers present the tree satisfies the tree invariant (balanced, strictly sorted, `Len` = number of
+  entries; every tree reachable from the empty one does: `Proofs.Tree.inv_runMuts`) -/
+  rangeInv : (∃ r ∈ reads, r.isSearch = false) → Inv cmp t
+
+/-- the near bound as the seek sees it, in the shape of C01's `aboveLo` / `belowHi` -/
+theorem near_ge (hc : StrictWeak cmp) (key k : K) : nearOf cmp .ge key k = decide (0 ≤ cmp k key) := by
+  have h1 := hc.anti k key
+  simp only [nearOf, seekFirstGreaterOrEqualStep]
+  by_cases h : cmp key k > 0 <;> by_cases h' : 0 ≤ cmp k key <;> simp [h, h'] <;> omega
+theorem near_gt (hc : StrictWeak cmp) (key k : K) : nearOf cmp .gt key k = decide (0 < cmp k key) := by
+  have h1 := hc.anti key k
+  simp only [nearOf, seekFirstGreaterStep]
+  by_cases h : cmp key k ≥ 0 <;> by_cases h' : 0 < cmp k key <;> simp [h, h'] <;> omega
+theorem near_le (hc : StrictWeak cmp) (key k : K) : nearOf cmp .le key k = decide (cmp k key ≤ 0) := by
+  have h1 := hc.anti key k
+  simp only [nearOf, seekLastLessOrEqualStep]
+  by_cases h : cmp key k < 0 <;> by_cases h' : cmp k key ≤ 0 <;> simp [h, h'] <;> omega
+theorem near_lt (hc : StrictWeak cmp) (key k : K) : nearOf cmp .lt key k = decide (cmp k key < 0) := by
+  have h1 := hc.anti k key
+  simp only [nearOf, seekLastLessStep]
+  by_cases h : cmp key k ≤ 0 <;> by_cases h' : cmp k key < 0 <;> simp [h, h'] <;> omega
+
+/-- **What `Range(lo, hi)` / `RangeReverse(lo, hi)` are as reader operations, in terms of the bounds**: the two regenerated
+`switch` tables make them a range reader that seeks in its own direction and whose far bound (the iterator's in-range
+predicate) and near bound (what the seek does not step over) together are exactly `aboveLo lo ∧ belowHi hi` — the
+interval of C01's ideal `srange`. -/
+theorem scanOf_bounds (hc : StrictWeak cmp) (rev : Bool) (lo hi : Bound K) (n : Nat) (hl : lo.kind ≠ none) (hh : hi.kind ≠ none) :
+    ∃ r : Op K V, scanOf rev lo hi n = some r ∧ r.isSearch = false ∧ ScanWF r ∧
+      (∀ k, (inRangeOf cmp r k && nearOp cmp r k) = (aboveLo cmp lo k && belowHi cmp hi k)) := by
+  obtain ⟨lk, hlk⟩ := Option.ne_none_iff_exists'.mp hl
+  obtain ⟨hk, hhk⟩ := Option.ne_none_iff_exists'.mp hh
+  cases rev <;> cases lk <;> cases hk
+  all_goals
+    simp only [scanOf, rangeSeek, rangeStop, rrangeSeek, rrangeStop, pickSide, hlk, hhk, Bool.false_eq_true, if_false, if_true]
+    refine ⟨_, rfl, rfl, rfl, fun k => ?_⟩
+    simp only [inRangeOf, nearOp, near_ge hc, near_gt hc, near_le hc, near_lt hc, evalOp, aboveLo, belowHi, hlk, hhk,
+      Bool.and_true, Bool.true_and, ge_iff_le, gt_iff_lt]
+    try (first | rfl | exact Bool.and_comm _ _ | (simp [nearOf]))
 
 theorem zip_sub {R : Node K V} : ∀ (up : List (Node K V × Nat)) (y : Node K V), Zip R y up → Sub R y := by
   intro up
@@ -105,7 +146,7 @@ theorem goroutines_of_put {puts : List (K × V)} {reads : List (Op K V)} {p : K 
 theorem setup_of_hyp {t : Tree K V} {puts : List (K × V)} {reads : List (Op K V)}
     (h : ConcHyp cmp t puts reads) : Setup cmp t (goroutines puts reads) := by
   have hr : ∀ r ∈ reads, r.isPut = false := h.readers
-  refine ⟨h.sw, h.nodup, ?_, ?_, ?_⟩
+  refine ⟨h.sw, h.nodup, ?_, ?_, ?_, ?_⟩
   · intro i op ho
     refine ⟨?_⟩
     rintro k v rfl
@@ -126,11 +167,15 @@ theorem setup_of_hyp {t : Tree K V} {puts : List (K × V)} {reads : List (Op K V
         rw [hvi, hvj] at this
         exact fun e => this (h.sw.eq_symm e)
     · exact h.searchKeys o hm hsr (k, v) (List.mem_of_getElem? hpi)
-  · intro i j hij k v o hoi hoj hns y hy idx hlt hin
+  · intro i j hij k v o hoi hoj hns y hy idx hlt hin hnear
     have hpi := goroutines_put_mem hr hoi
     rcases goroutines_get hoj with ⟨q, hq, rfl⟩ | ⟨_, hm⟩
     · simp [Op.isSearch] at hns
-    · exact h.rangeKeys o hm hns (k, v) (List.mem_of_getElem? hpi) _ (hy.key_mem (List.getElem_mem hlt)) hin
+    · exact h.rangeKeys o hm hns (k, v) (List.mem_of_getElem? hpi) _ (hy.key_mem (List.getElem_mem hlt)) hin hnear
+  · intro i op ho hns
+    rcases goroutines_get ho with ⟨q, hq, rfl⟩ | ⟨_, hm⟩
+    · simp [Op.isSearch] at hns
+    · exact ⟨h.rangeWF op hm hns, h.rangeInv ⟨op, hm, hns⟩⟩
 
 /-- the sequential result is the ideal sorted map's: `sput` for every Put, in the order given -/
 theorem putAll_refines (hc : StrictWeak cmp) : ∀ (ps : List (K × V)) (t t' : Tree K V), WF cmp t →
